@@ -54,6 +54,7 @@ CONSTANTS MaxT,        \* clock runs 0..MaxT
           CliHosts,    \* hostnames C opens exchanges with
           SeqSessions, \* C starts a new exchange only when the previous one is over (done / token answered)
           StaleStart,  \* exchanges may start in the server-initiated flow (C holds a token the server refuses)
+          Mixed,       \* the attacker also sends mixed-state headers (parameters of several protocol states at once)
           Careless     \* FALSE always; TRUE only in the self-test that the model can express the alias attack:
                        \* C's token cache is then keyed by the normalised hostname
 
@@ -75,10 +76,12 @@ VARIABLES now,    \* clock
           cn,     \* challenge-server values C has generated
           cache,  \* C's token cache (auth/client.go tokenMap): [host, spk, chS] = for hostname host C holds a
                   \* bearer token and remembers server key spk, obtained in the exchange whose challenge was chS
+          proof,  \* ghost: [tok, at] = bearer token tok was issued at instant `at` on the strength of a signature
+                  \* verified at that instant; a token's age is measured from its proof
           op      \* output only: last action, arguments, expected observable result
 
-vars == <<now, ops, sigs, cli, ncli, cn, cache, op>>
-View == <<now, ops, sigs, cli, ncli, cn, cache>>
+vars == <<now, ops, sigs, cli, ncli, cn, cache, proof, op>>
+View == <<now, ops, sigs, cli, ncli, cn, cache, proof>>
 
 Chal(s, h, c, pk, t) == [mac |-> s, tok |-> FALSE, cpk |-> pk, pid |-> None, ch |-> c, host |-> h, t |-> t]
 Tok(s, h, p, t) == [mac |-> s, tok |-> TRUE, cpk |-> None, pid |-> p, ch |-> 0, host |-> h, t |-> t]
@@ -91,14 +94,14 @@ NMint == Cardinality(Chals)
 NTok == Cardinality({o \in ops : o.tok})
 ChalNonces == {o.ch : o \in Chals}
 
-Init == /\ now = 0 /\ ops = {} /\ sigs = {} /\ ncli = 0 /\ cn = 0 /\ cache = {}
+Init == /\ now = 0 /\ ops = {} /\ sigs = {} /\ ncli = 0 /\ cn = 0 /\ cache = {} /\ proof = {}
         /\ cli = [st |-> "idle", host |-> "h1", chS |-> 0, spk |-> None]
         /\ op = [name |-> "init"]
 
 \* time only matters once something carries a timestamp
 Tick == /\ now < MaxT /\ ops # {}
         /\ now' = now + 1
-        /\ UNCHANGED <<ops, sigs, cli, ncli, cn, cache>>
+        /\ UNCHANGED <<ops, sigs, cli, ncli, cn, cache, proof>>
         /\ op' = [name |-> "tick"]
 
 AddSigs(G) == sigs' = IF Explicit THEN sigs \cup G ELSE sigs
@@ -111,7 +114,7 @@ Challenge(s, h) ==
   /\ LET o == Chal(s, h, NMint + 1, None, now) IN
      /\ ops' = ops \cup {o}
      /\ op' = [name |-> "challenge", srv |-> s, host |-> h, o |-> o]
-  /\ UNCHANGED <<now, sigs, cli, ncli, cn, cache>>
+  /\ UNCHANGED <<now, sigs, cli, ncli, cn, cache, proof>>
 
 (* challenge-server + public-key: state SignChallenge (client-initiated flow).  The server signs    *)
 (* whatever challenge and public key it is handed, and binds the public key into the opaque.        *)
@@ -122,7 +125,7 @@ SignChallenge(s, h, c, pk) ==
      /\ ops' = ops \cup {o}
      /\ AddSigs({g})
      /\ op' = [name |-> "sign", srv |-> s, host |-> h, c |-> c, pk |-> pk, o |-> o, sig |-> g]
-  /\ UNCHANGED <<now, cli, ncli, cn, cache>>
+  /\ UNCHANGED <<now, cli, ncli, cn, cache, proof>>
 
 (* sig + opaque: state VerifyChallenge.  o is the blob as the server sees it, g the presented       *)
 (* signature, pk the public-key parameter (None = absent), c the challenge-server parameter          *)
@@ -171,15 +174,20 @@ Tries(s, h, o) ==
   THEN {<<g, pk, c>> : g \in SigsForS(s, h, o), pk \in PkMenu(o), c \in CsMenu(s, o)}
   ELSE BestTries(s, h, o) \cup {<<Sg("kA", "cli", o.ch, SrvKey(s), h), IF o.cpk = None THEN "kA" ELSE None, 0>>}
 
-Verify(s, h, o, g, pk, c) ==
+(* b: a bearer parameter in the same header (None = absent).  sig + opaque select the state, so the  *)
+(* bearer is ignored (mixed-state header).                                                            *)
+VerifyX(s, h, o, g, pk, c, extra) ==
   LET res == VerifyRes(s, h, o, g, pk, c) IN
   /\ IF res = "ok"
      THEN /\ ops' = ops \cup {Tok(s, h, VKey(o, pk), now)}
+          /\ proof' = proof \cup {[tok |-> Tok(s, h, VKey(o, pk), now), at |-> now]}
           /\ AddSigs(IF o.cpk = None THEN {Sg(SrvKey(s), "srv", c, pk, h)} ELSE {})
-     ELSE UNCHANGED <<ops, sigs>>
+     ELSE UNCHANGED <<ops, sigs, proof>>
   /\ op' = [name |-> "verify", srv |-> s, host |-> h, o |-> o, sig |-> g, pk |-> pk, c |-> c, alt |-> None,
-            res |-> res, peer |-> IF res = "ok" THEN VKey(o, pk) ELSE None]
+            res |-> res, peer |-> IF res = "ok" THEN VKey(o, pk) ELSE None] @@ extra
   /\ UNCHANGED <<now, cli, ncli, cn, cache>>
+Verify(s, h, o, g, pk, c) == VerifyX(s, h, o, g, pk, c, [mix |-> None])
+VerifyB(s, h, o, g, pk, c, b) == VerifyX(s, h, o, g, pk, c, [mix |-> "bearer", b |-> b])
 
 (* single alteration of a request that would be accepted: field f of the opaque / the signature /  *)
 (* the public key is changed (the harness runs each over every byte).  Any change of the blob makes  *)
@@ -191,7 +199,7 @@ VerifyAlt(s, h, o, g, pk, c, f) ==
   /\ VerifyRes(s, h, o, g, pk, c) = "ok"
   /\ op' = [name |-> "verify", srv |-> s, host |-> h, o |-> o, sig |-> g, pk |-> pk, c |-> c, alt |-> f,
             res |-> IF f \in OpaqueAlts THEN "hmac" ELSE "sig", peer |-> None]
-  /\ UNCHANGED <<now, ops, sigs, cli, ncli, cn, cache>>
+  /\ UNCHANGED <<now, ops, sigs, cli, ncli, cn, cache, proof>>
 
 (* bearer: state VerifyBearer.  The hostname is not compared on this path (as in the code). *)
 BearerRes(s, o) ==
@@ -200,16 +208,22 @@ BearerRes(s, o) ==
   ELSE IF now > o.t + TokTTL THEN "expired"
   ELSE "ok"
 
-Bearer(s, h, o) ==
+(* m: parameters of other protocol states in the same header ("none" = a plain bearer request):     *)
+(* "cs+pk" challenge-server + public-key (the client-initiated request), "o+cs+pk" those and an opaque  *)
+(* without signature, "sig+cs+pk" those and a signature without opaque.  Without sig AND opaque the     *)
+(* bearer selects the state and the rest is ignored; nothing is minted.                                 *)
+BearerMixes == {"cs+pk", "o+cs+pk", "sig+cs+pk"}
+BearerM(s, h, o, m) ==
   LET res == BearerRes(s, o) IN
   /\ op' = [name |-> "bearer", srv |-> s, host |-> h, o |-> o, alt |-> None, res |-> res,
-            peer |-> IF res = "ok" THEN o.pid ELSE None]
-  /\ UNCHANGED <<now, ops, sigs, cli, ncli, cn, cache>>
+            peer |-> IF res = "ok" THEN o.pid ELSE None, mix |-> m]
+  /\ UNCHANGED <<now, ops, sigs, cli, ncli, cn, cache, proof>>
+Bearer(s, h, o) == BearerM(s, h, o, None)
 
 BearerAlt(s, h, o, f) ==
   /\ BearerRes(s, o) = "ok"
   /\ op' = [name |-> "bearer", srv |-> s, host |-> h, o |-> o, alt |-> f, res |-> "hmac", peer |-> None]
-  /\ UNCHANGED <<now, ops, sigs, cli, ncli, cn, cache>>
+  /\ UNCHANGED <<now, ops, sigs, cli, ncli, cn, cache, proof>>
 
 (* ------------------------------- honest client C ------------------------------- *)
 
@@ -230,7 +244,7 @@ CStart(h, mode) ==
           /\ cn' = cn
   /\ op' = [name |-> "cstart", host |-> h, mode |-> mode, chS |-> cli'.chS,
             tokhost |-> IF mode = "tok" THEN (CHOOSE e \in CacheFor(h) : TRUE).host ELSE None]
-  /\ UNCHANGED <<now, ops, sigs, cache>>
+  /\ UNCHANGED <<now, ops, sigs, cache, proof>>
 
 (* the token was sent and the answer is not a 401: C takes the peer it remembers for this cache entry *)
 CTokOther(status) ==
@@ -239,7 +253,7 @@ CTokOther(status) ==
      /\ cli' = [cli EXCEPT !.st = "tdone", !.spk = e.spk]
      /\ op' = [name |-> "ctok", host |-> cli.host, status |-> status, res |-> "reported", reports |-> e.spk,
                entry |-> e.host]
-  /\ UNCHANGED <<now, ops, sigs, ncli, cn, cache>>
+  /\ UNCHANGED <<now, ops, sigs, ncli, cn, cache, proof>>
 
 \* signatures A can present to C
 AttSrvSigs ==
@@ -286,7 +300,7 @@ CWww(c, pk, g) ==
                /\ UNCHANGED <<cn, sigs>>
                /\ op' = [name |-> "cwww", c |-> c, pk |-> pk, sig |-> g, alt |-> None, res |-> "err", reports |-> None,
                          signed |-> NoSig]
-  /\ UNCHANGED <<now, ops, ncli, cache>>
+  /\ UNCHANGED <<now, ops, ncli, cache, proof>>
 
 (* Authentication-Info received in state VerifyChallenge ("vc") or WaitingForBearer ("wfb") *)
 CInfo(g) ==
@@ -299,7 +313,7 @@ CInfo(g) ==
           /\ op' = [name |-> "cinfo", sig |-> g, alt |-> None, res |-> "done", reports |-> cli.spk]
      ELSE /\ cli' = cli /\ cache' = cache
           /\ op' = [name |-> "cinfo", sig |-> g, alt |-> None, res |-> "err", reports |-> None]
-  /\ UNCHANGED <<now, ops, sigs, ncli, cn>>
+  /\ UNCHANGED <<now, ops, sigs, ncli, cn, proof>>
 
 (* single alteration of a server answer C would accept: the signature or the server public key *)
 CAlts == {"sig", "sig.trunc", "sig.ext", "pk"}
@@ -307,12 +321,12 @@ CWwwAlt(c, pk, g, f) ==
   /\ cli.st = "vas" /\ cli.spk = None /\ pk # None
   /\ g = Sg(pk, "srv", cli.chS, "kC", cli.host)
   /\ op' = [name |-> "cwww", c |-> c, pk |-> pk, sig |-> g, alt |-> f, res |-> "err", reports |-> None, signed |-> NoSig]
-  /\ UNCHANGED <<now, ops, sigs, cli, ncli, cn, cache>>   \* (an undecodable key is not remembered; a wrong signature changes nothing)
+  /\ UNCHANGED <<now, ops, sigs, cli, ncli, cn, cache, proof>>   \* (an undecodable key is not remembered; a wrong signature changes nothing)
 CInfoAlt(g, f) ==
   /\ cli.st = "vc" /\ f # "pk"
   /\ g = Sg(cli.spk, "srv", cli.chS, "kC", cli.host)
   /\ op' = [name |-> "cinfo", sig |-> g, alt |-> f, res |-> "err", reports |-> None]
-  /\ UNCHANGED <<now, ops, sigs, cli, ncli, cn, cache>>
+  /\ UNCHANGED <<now, ops, sigs, cli, ncli, cn, cache, proof>>
 
 (* ---------------------------------- next-state ---------------------------------- *)
 
@@ -330,6 +344,10 @@ AttackServer ==
   \/ \E s \in Verifiers, h \in Hosts, o \in ops :
           \/ Bearer(s, h, o)
           \/ \E f \in OpaqueAlts : BearerAlt(s, h, o, f)
+          \* mixed-state headers: every blob in the bearer slot next to the parameters of the other states,
+          \* and the best verify request for every blob next to every token in the bearer slot
+          \/ Mixed /\ \E m \in BearerMixes : BearerM(s, h, o, m)
+          \/ Mixed /\ \E x \in BestTries(s, h, o), b \in {t \in ops : t.tok} : VerifyB(s, h, o, x[1], x[2], x[3], b)
 
 Client == \/ \E h \in CliHosts, m \in {"ci", "si", "tok"} : CStart(h, m)
           \/ \E st \in {"200", "403", "500"} : CTokOther(st)
@@ -376,7 +394,9 @@ ServerReportsP(r, O, t) ==
 (* ... or s issued an unexpired token for p *)
 BearerReportsP(r, O, t) ==
   (r.name = "bearer" /\ r.res = "ok") =>
-     \E o \in O : o.mac = r.srv /\ o.tok /\ o.pid = r.peer /\ t <= o.t + TokTTL
+     \E o \in O : /\ o.mac = r.srv /\ o.tok /\ o.pid = r.peer /\ t <= o.t + TokTTL
+                  \* ... and its age counts from the proof it stems from (no re-dating without a proof)
+                  /\ \E q \in proof : q.tok = o /\ t <= q.at + TokTTL
 
 (* Integrity: whatever is accepted was produced under the verifier's own secret, unaltered, of the  *)
 (* right kind and unexpired; nothing altered, foreign or of the wrong kind passes.                   *)
@@ -407,6 +427,9 @@ ClientOpReportsP(r, c) ==
       /\ r.reports = c.spk /\ c.st \in {"wfb", "done"}
       /\ Signed(Sg(r.reports, "srv", c.chS, "kC", c.host))
 ClientOpReports == [][ClientOpReportsP(op', cli')]_vars
+
+(* every token in existence is dated with the instant of the verified signature it was issued for *)
+TokensDated == \A o \in ops : o.tok => \E q \in proof : q.tok = o /\ q.at = o.t
 
 (* Token cache: what C remembers for a hostname was proven for exactly that hostname, and a peer    *)
 (* reported on the strength of the cache is the one remembered for exactly the request's hostname.    *)
